@@ -94,6 +94,21 @@ def main():
                         break
                 if fail:
                     break
+        if fail is None and a.fn == 'C14':
+            # flags are taken from the save file on --load (the session file of a fresh run is written at start-up)
+            n = 1500
+            for flags in (['--skip_brute'], ['--all_lower'], ['--skip_brute', '--all_lower']):
+                first = lines_of(run(d, ['-r', 'Default', '-s', 'c14', '-n', str(n)] + flags))
+                resumed = lines_of(run(d, ['-s', 'c14', '--load', '-n', str(n)]))
+                cases += 1
+                samples.append({'flags': flags, 'lines': len(resumed)})
+                if resumed != first:
+                    fail = {'first_run': ['-r', 'Default', '-s', 'c14', '-n', str(n)] + flags, 'resumed_run': ['-s', 'c14', '--load', '-n', str(n)],
+                            'first_difference': next((i for i, (x, y) in enumerate(zip(first, resumed)) if x != y), None),
+                            'what': 'the resumed session (saved position = start) must reproduce the stream of the flags stored in the .sav'}
+                    break
+                if a.tier == 'quick':
+                    break
         if fail is None and a.fn == 'C12':
             n = 3000
             want = ref[:n]
